@@ -1,6 +1,6 @@
 (** * C19 — Ordered maps and sets encode as sorted entry lists and decode by collection. *)
 From SSZ Require Import Base Offsets Types Codec CodecUnfold ListDecFacts LeafIface LeafProof
-     OrderFacts RoundTrip Canon Strict ListView ListViewFacts ListViewEnc.
+     OrderFacts RoundTrip Canon Strict ListView ListViewFacts ListViewEnc ListViewTyped.
 Open Scope N_scope.
 
 (** A map or set value is its list of entries in strictly ascending key order ([has_ty]). *)
@@ -87,6 +87,23 @@ Theorem C19_encode_as_entry_lists_at_every_depth :
   forall t v, has_ty t v = true -> enc t v = enc (list_view t) v.
 Proof. exact enc_by_entry_list. Qed.
 Print Assumptions C19_encode_as_entry_lists_at_every_depth.
+
+(** What a decoder returns is well typed at every depth (each set / map strictly ascending, wherever it sits), and
+    re-encoding it is a fixed point of the decoder -- the general form of [C19_set_fixed_point]: [t] may hold sets and
+    maps anywhere, as long as what remains when they are read as lists is a canonical type. *)
+Theorem C19_decoded_collections_sorted_at_every_depth :
+  forall t bs v, canon_type (list_view t) = true -> wf_type t = true -> phys bs -> dec t bs = Ok v -> has_ty t v = true.
+Proof. exact dec_typed_at_any_depth. Qed.
+Print Assumptions C19_decoded_collections_sorted_at_every_depth.
+Theorem C19_fixed_point_at_every_depth :
+  forall t bs v, canon_type (list_view t) = true -> rt_type t = true -> phys bs -> dec t bs = Ok v ->
+    len (enc t v) < 4294967296 -> dec t (enc t v) = Ok v.
+Proof. exact fixed_point_at_any_depth. Qed.
+Print Assumptions C19_fixed_point_at_every_depth.
+Example C19_every_depth_hypotheses_satisfiable :
+  let t := TContainer true [TUint 2; TMap (TUint 1) (TSet (TUint 2)); TList (TSet (TUint 1))] in
+  canon_type (list_view t) = true /\ rt_type t = true /\ wf_type t = true.
+Proof. vm_compute. repeat split; reflexivity. Qed.
 
 Example C19_nested_example :
   list_view (TMap (TUint 1) (TSet (TUint 2))) = TList (TContainer false [TUint 1; TList (TUint 2)]) /\
